@@ -1,0 +1,50 @@
+//! `cfg(libp2p_verif)` visibility hook for verification property C10 (idle shutdown).
+//! Child module of `connection` so that it can *call* the private `compute_new_shutdown` and
+//! construct the private `Shutdown`; compiled out unless `--cfg libp2p_verif` is given.
+
+use std::time::Duration;
+
+use futures_timer::Delay;
+
+use super::{Shutdown, compute_new_shutdown};
+use crate::stream::ActiveStreamCounter;
+
+/// Kind of a `Shutdown` value (the `Delay` inside `Later` is not observable).
+#[derive(Debug, Clone, Copy, PartialEq, Eq)]
+pub enum Kind {
+    None,
+    Asap,
+    Later,
+}
+
+fn kind(s: &Shutdown) -> Kind {
+    match s {
+        Shutdown::None => Kind::None,
+        Shutdown::Asap => Kind::Asap,
+        Shutdown::Later(_) => Kind::Later,
+    }
+}
+
+/// `compute_new_shutdown(handler_keep_alive, &current, idle_timeout)`; `None` = leave unchanged.
+pub fn compute(handler_keep_alive: bool, current: Kind, idle_timeout: Duration) -> Option<Kind> {
+    let current = match current {
+        Kind::None => Shutdown::None,
+        Kind::Asap => Shutdown::Asap,
+        Kind::Later => Shutdown::Later(Delay::new(Duration::from_secs(3600))),
+    };
+    compute_new_shutdown(handler_keep_alive, &current, idle_timeout)
+        .as_ref()
+        .map(kind)
+}
+
+/// `ActiveStreamCounter::has_no_active_streams()` of a fresh counter after `clones` clones were
+/// handed out (streams / negotiating upgrades) and `dropped` of them were dropped again
+/// (stream dropped or `ignore_for_keep_alive`).
+pub fn counter_idle(clones: usize, dropped: usize) -> bool {
+    let counter = ActiveStreamCounter::default();
+    let mut held: Vec<ActiveStreamCounter> = (0..clones).map(|_| counter.clone()).collect();
+    for _ in 0..dropped.min(clones) {
+        held.pop();
+    }
+    counter.has_no_active_streams()
+}
